@@ -214,6 +214,26 @@ def chunk_positions(chunk, acc):
             acc.states += 1
             payload, off = build_container(kind, area, acc.seed)
             check_positive(acc, payload, off, C["realistic"], key, opts, ("cont", klen, kind), {"kind": "container", "keylen": klen, "family": fam, "container": kind, "seed": acc.seed}, image=("x64" if "64" in kind else "x86", 0x5FA0B201, 0x5FA0B264))
+            # the extraction generator itself on a handle that was used before (raw and decoded views): positioned at 2,
+            # at its end, and a second extraction on the same handle - always the whole payload is searched
+            from dissect.cobaltstrike import guardrails as lib_gr
+            from dissect.cobaltstrike.xordecode import XorEncodedFile
+
+            def handle():
+                return XorEncodedFile.from_file(io.BytesIO(payload)) if kind.startswith("xor") else io.BytesIO(payload)
+
+            want = (off, off + G.CONFIG_SIZE, key, C["realistic"].ljust(G.CONFIG_SIZE, b"\x00"))
+            for label, prep in (("fresh", lambda fh: None), ("after-read-2", lambda fh: fh.read(2)), ("at-end", lambda fh: fh.seek(0, 2)), ("second-extraction", lambda fh: list(lib_gr.iter_guardrail_configs_with_beacon(fh)))):
+                acc.transitions += 1
+                try:
+                    fh = handle()
+                    prep(fh)
+                    got = [(g.beacon_config_offset, g.guard_config_offset, g.payload_xor_key, bytes(g.unmasked_beacon_config or b"")) for g in lib_gr.iter_guardrail_configs_with_beacon(fh)]
+                except Exception as e:  # noqa
+                    got = f"{type(e).__name__}: {e}"
+                acc.case(("handle", klen, kind, label), outcome=str(got)[:40])
+                if got != [want]:
+                    acc.fail("C17/recover/depends-on-handle-position", {"kind": "container", "keylen": klen, "family": fam, "container": kind, "handle": label, "seed": acc.seed}, [want[0], want[1], want[2].hex()], got if isinstance(got, str) else [[g[0], g[1], None if g[2] is None else g[2].hex()] for g in got])
     acc.sample({"positions": [[0, 0], [1, 7], [5000, 3000], [8191, 0]], "containers": ["raw", "PE .data", "XorEncoded PE"]})
 
 
